@@ -8,6 +8,7 @@ mutation log (all modes).  Paths outside the root are untouched.
 """
 import os
 import io
+import weakref
 import sys
 import stat as _stat
 import time
@@ -84,6 +85,10 @@ class Seam:
         self.n = 0
         self.shadow = None
         self.faulted = None
+        # open traced files, so that a rename moves their recorded path with
+        # the inode (a write through a handle opened under the old name lands
+        # in the file now visible under the new one)
+        self.open_files = weakref.WeakSet()
 
     # -- helpers ------------------------------------------------------------ #
     def inside(self, p):
@@ -215,6 +220,7 @@ class TracedFileIO(io.FileIO):
                 mode=mode, existed=existed, trunc=trunc)
         self._xv_append = "a" in mode
         self._xv_chunk = None
+        seam.open_files.add(self)
 
     def write(self, b):
         seam = self._xv_seam
@@ -358,8 +364,12 @@ def _wrap2(name, kind):
         ps, pd = _abs(src), _abs(dst)
         if seam is None or not (seam.inside(ps) or seam.inside(pd)):
             return orig(src, dst, *a, **kw)
-        return seam.op(kind, ps, lambda: orig(src, dst, *a, **kw), True,
-                       dst=seam.rel(pd))
+        res = seam.op(kind, ps, lambda: orig(src, dst, *a, **kw), True,
+                      dst=seam.rel(pd))
+        for f in list(seam.open_files):
+            if f._xv_path == ps and not f._xv_closed:
+                f._xv_path = pd
+        return res
 
     wrapper.__name__ = name
     return wrapper
